@@ -64,24 +64,24 @@ CLAIMED = {
 }
 # clauses added in later rounds (appended to the level text)
 EXTRA = {
- "C01": " Later rounds: every entry and element applied (i), layout obligations of C12 (j), a fresh or fully reset decode target per command (k), only Set/Delete/DeleteRange on the apply batch (l), bytewise comparer (m).",
+ "C01": " Later rounds: every entry and element applied (i), layout obligations of C12 (j), a fresh or fully reset decode target per command (k), only Set/Delete/DeleteRange on the apply batch (l), bytewise comparer (m), directory keyed by table name and shard id (n).",
  "C02": " Later rounds: predicate gate, full traversal of every operation list (g), only plain write operations (h).",
  "C03": " Later rounds: every entry applied (f), recover format from the stream header (g), no entry-loop local carried into results or writes (h), fresh decode target (i), plain write operations (j).",
- "C04": " Later rounds: nothing tears the new DB or its directory down once it is published, not even a deferred clean-up on a late error; the switch of 'current' is one rename and removes nothing.",
+ "C04": " Later rounds: nothing tears the new DB or its directory down once it is published, not even a deferred clean-up on a late error; the switch of 'current' is one rename and removes nothing; a created directory's parent is synced; created files are complete when synced (h).",
  "C05": " Later rounds: proposals never tagged ahead, leader cache dense (d4), catalogue reconciliation complete (g), recovery image from one snapshot (h).",
- "C06": " Later rounds: cache prepend/append contiguity, producer event types, in-place buffer writes, compaction events sent with a waiting send.",
- "C07": " Later rounds: export unbounded over the key space, maintenance RPC pipeline (restore acknowledged only after the load, spool files rewound) (g).",
- "C08": " Later rounds: stream read fully (e), no teardown after publish, publish protocol removes nothing.",
- "C10": " Later rounds: follower index never ahead (e), forwarded writes acknowledged only after the local apply (f).",
- "C11": " Later rounds: every started state machine gets a listener, announced index not ahead (f).",
+ "C06": " Later rounds: cache prepend/append contiguity, producer event types, in-place buffer writes, compaction events sent with a waiting send, read errors of the cached reader returned.",
+ "C07": " Later rounds: export unbounded over the key space, maintenance RPC pipeline (restore acknowledged only after the load, spool files rewound) (g), the backup client restores every table of the manifest.",
+ "C08": " Later rounds: stream read fully (e), no teardown after publish, publish protocol removes nothing, no error after the swap but the clean-up's, received files complete when synced (f).",
+ "C10": " Later rounds: follower index never ahead (e), forwarded writes acknowledged only after the local apply (f), predicates under their own keys (g), one iterator per streamed read (h).",
+ "C11": " Later rounds: every started state machine gets a listener, announced index not ahead (f), sweep driven by a ticker, announcements only by the serving shard (g; known finding K2 at Manager.Restore).",
  "C12": " Later rounds: buffer reuse (d3), export covers the key space (e), bytewise comparer (f).",
- "C13": " Later rounds: sibling agreement of the listings (g); the lock rule accepts explicit unlocks after the last access.",
- "C14": " Later rounds: names stay inside the catalogue's key space for every Set/Delete (g), snapshot replaces the map (h), reconciliation complete (i), one compare-and-set per sequence advance.",
+ "C13": " Later rounds: sibling agreement of the listings (g); the lock rule accepts explicit unlocks after the last access; store operations unconditional (h); fresh decode target and own key only (i).",
+ "C14": " Later rounds: names stay inside the catalogue's key space for every Set/Delete (g), snapshot replaces the map (h), reconciliation complete (i), one compare-and-set per sequence advance, delete success only on the nil edge, listing complete (k), restore re-reads its record (l).",
  "C15": " Later rounds: the store's versions (d), snapshot replaces the map (e), the worker is a holder only on the nil edge of the lease call.",
- "C16": " Later rounds: read-only classification (g), NotFound mapping checked along every path.",
- "C17": " Later rounds: secure schemes of resolveURL (g), whole-string token comparison, leaf-certificate identity.",
- "C18": " Later rounds: pooled wrappers own their codec object, no shared receive-buffer pool under the aliasing codec, restore streams each table from its own reader (f).",
- "C19": " Later rounds: merge completeness, whole-list feeders, one view object, headers read from the view per response, read-merge-write in one critical section.",
+ "C16": " Later rounds: read-only classification (g), NotFound mapping checked along every path, make sizes bounded above, nothing on the apply path makes an error (h).",
+ "C17": " Later rounds: secure schemes of resolveURL (g), whole-string token comparison, leaf-certificate identity, non-nil CA pool, no shared session tickets.",
+ "C18": " Later rounds: pooled wrappers own their codec object, no shared receive-buffer pool under the aliasing codec, restore streams each table from its own reader (f), stream methods in the method set at io.Copy (g), sizes fit (h).",
+ "C19": " Later rounds: merge completeness, whole-list feeders, one view object, headers read from the view per response, read-merge-write in one critical section, feeders feed on every path into a value of their own.",
 }
 PENDING_REASON = "rules designed (DESIGN.md section 7), check not built yet"
 checks=[]; na=[]
@@ -103,7 +103,7 @@ m={"version":1,"setup_cmd":"./setup.sh",
  "hooks":{"guard":"verif","enable":"none needed: the checker reads /repo's sources only; no hooks or instrumentation exist","baseline_off_cmd":"cd /repo && go test -mod=mod -json -vet=off -count=1 -timeout 25m ./...","source_commits":[],"add_only":True},
  "engines":[{"name":"rvet","path":"/verif/checker","serves_properties":sorted(CLAIMED),"kind_free_text":"repository-specific static analyser over go/packages + go/ssa: CFG edge-cut guard entailment, must-pass-through, typestate dataflow, value provenance, ownership/effects, exhaustiveness and writer-reader agreement rules"}],
  "checks":checks,
- "notes":"Static analysis only (DESIGN.md). Every check re-loads and re-type-checks /repo's working tree on each run. All claims are at level 'other': structural necessary conditions of the property, never the behaviour itself. Genuine defects found are repaired by fix: commits in /repo and listed in known_findings.json.",
+ "notes":"Static analysis only (DESIGN.md). Every check re-loads and re-type-checks /repo's working tree on each run. All claims are at level 'other': structural necessary conditions of the property, never the behaviour itself. Genuine defects found are repaired by fix: commits in /repo (F1-F10) and listed in known_findings.json as fixed; two are recorded as known findings instead (K1 under C08, K2 under C11; each check prints a KNOWN-FINDING line for it and exits 0, any other violation of the property is still reported).",
  "not_applicable":na}
 json.dump(m,open('/verif/MANIFEST.json','w'),indent=1)
 print(len(checks),"claimed",len(na),"not applicable")
